@@ -1,12 +1,33 @@
-(* C08 - Solution modifiers and aggregates follow SPARQL (DISTINCT, ORDER,
-   slice, GROUP).  Property theorems only; the proofs are in Modifiers/*.v.
-   The model (Modifiers/Model.v) follows rdflib's evalDistinct, evalOrderBy,
-   evalSlice, evalProject, evalAggregateJoin and the accumulators of
-   aggregates.py; the input solution sequence is a parameter. *)
+(* C08 - Solution modifiers and aggregates follow SPARQL (DISTINCT, ORDER, slice, GROUP).
+   Property theorems only; the proofs are in Modifiers/*.v.
+
+   SCOPE OF THESE THEOREMS - read this first.
+   * The solution sequence that ENTERS the modifiers is an INPUT of every statement (c_input):
+     graph-pattern evaluation is property C04's subject.  In the correspondence runs it is what
+     real rdflib returns for `SELECT * WHERE { P }` for one of six small base patterns.
+   * The query-level translation (algebra.translate / translateAggregates: aggregates replaced by
+     __agg_n__ variables, implicit SAMPLE of projected variables, Extend chains, HAVING after
+     aliasing) is NOT modelled as a syntax transformation.  The model's pipeline
+       Group/AggregateJoin -> Filter(HAVING) -> Extend -> OrderBy -> Project -> Distinct -> Slice
+     is the INTENDED RESULT of that rewriting; that rdflib's translator produces it is checked only
+     by the runs (every case is posed as query TEXT, so a translator error shows as a disagreement:
+     seeded changes C08-3 and C08-r2-2 are of that kind), not proved.
+   * What IS modelled statement by statement: evalDistinct, evalOrderBy, evalSlice, evalProject,
+     evalAggregateJoin, the seven accumulators of aggregates.py, evalutils._val with the term
+     comparison, the operators of operators.py used in aggregate arguments, datatypes.type_promotion
+     over the reflected table.
+   * TERM FRAGMENT (sort keys, group keys, aggregate members): blank nodes, IRIs, plain string
+     literals, xsd:integer, xsd:decimal - NOT language-tagged strings, booleans, dates, doubles,
+     other datatypes (doubles only in the promotion suite: datatype proved, value to a tolerance).
+     The property's "sort keys of mixed term kinds and datatypes" is covered for these five kinds
+     only.  Sort keys are variables (or aggregates as unprojected aliases); HAVING is one comparison
+     of COUNT/SUM/AVG with an integer or of a grouping key with an IRI.
+   * The literal order (numeric below string) is rdflib's choice where SPARQL 15.1 leaves the
+     order of unrelated literals open: the checker is stricter than the standard there. *)
 From Coq Require Import Permutation Sorting.Sorted.
 From RV Require Import Modifiers.Model Modifiers.Order Modifiers.Post Modifiers.Agg
                        Modifiers.Proofs Modifiers.Readings Modifiers.PromoModel Modifiers.PromoProofs
-                       Modifiers.ExprProofs.
+                       Modifiers.ExprProofs Modifiers.Fuel.
 
 (* The tie between model and checker: on every well-formed case the rows the
    model computes (aggregation stage, query without slice, query) are accepted
@@ -309,6 +330,44 @@ Theorem C08_having : forall c gv a k,
   In k (map (key_of gv) a) -> having_holds (c_having c) (members gv k (c_input c)) = true.
 Proof. exact having_reading. Qed.
 Print Assumptions C08_having.
+
+(* HAVING (agg op n): the checker evaluates the condition on the value the model's accumulator
+   computes (having_holds calls agg_run) - that is no dependency on the model: the verdict is the
+   same for EVERY admissible value of COUNT / SUM / AVG *)
+Theorem C08_having_verdict_unique : forall a rows o o' op n,
+  having_kind a = true -> agg_adm a rows o = true -> agg_adm a rows o' = true ->
+  cond_holds op n o = cond_holds op n o'.
+Proof. exact having_verdict_unique. Qed.
+Print Assumptions C08_having_verdict_unique.
+
+Theorem C08_having_holds_admissible : forall a op n rows o,
+  having_kind a = true -> agg_adm a rows o = true ->
+  having_holds (Some (HAgg a op n)) rows = cond_holds op n o.
+Proof. exact having_holds_admissible. Qed.
+Print Assumptions C08_having_holds_admissible.
+
+(* The fuel of the digit functions suffices (exhaustion would give a short digit string on both
+   sides of the checker, unnoticed): nat_str yields ALL digits - reading it back gives the number -
+   so str(int) is injective; ndigits is the number of decimal digits; strip_zeros stops because of
+   its condition.  (concat_match is used by the checker only: running out of fuel means "reject".) *)
+Theorem C08_nat_str_all_digits : forall a, (0 <= a)%Z -> dval (nat_str a) 0 = a /\ nat_str a <> [].
+Proof. exact nat_str_value. Qed.
+Print Assumptions C08_nat_str_all_digits.
+
+Theorem C08_z_str_injective : forall a b, z_str a = z_str b -> a = b.
+Proof. exact z_str_injective. Qed.
+Print Assumptions C08_z_str_injective.
+
+Theorem C08_ndigits_is_digit_count : forall a, (0 <= a)%Z ->
+  (1 <= ndigits a)%Z /\ (a < 10 ^ ndigits a)%Z /\ (1 <= a -> 10 ^ (ndigits a - 1) <= a)%Z.
+Proof. exact ndigits_spec. Qed.
+Print Assumptions C08_ndigits_is_digit_count.
+
+Theorem C08_strip_zeros_fuel : forall f c e ideal, (ideal - e <= Z.of_nat f)%Z ->
+  let r := strip_zeros f c e ideal in
+  (ideal <= snd r \/ fst r mod 10 <> 0)%Z \/ (ideal <= e)%Z.
+Proof. exact strip_zeros_spec. Qed.
+Print Assumptions C08_strip_zeros_fuel.
 
 (* HAVING on a grouping key without an aggregate: the condition is evaluated on the value the
    key has in the group (unbound key: error, the group is dropped for = and for !=) *)
